@@ -23,7 +23,7 @@ FormsBy == [n \in IsaNames |->
   CASE n = "4004" -> I4!Forms [] n = "8080" -> I80!Forms [] n = "6502" -> I65!Forms [] n = "PIC16" -> IPic!Forms
     [] n = "AVR" -> IAvr!Forms [] n = "Z80" -> IZ80!Forms [] n = "MSP430" -> IMsp!Forms [] n = "6800" -> I68!Forms]
 AddrMaxOf(n, cpu) ==
-  CASE n = "4004" -> I4!AddrMax [] n = "PIC16" -> IPic!AddrMax [] n = "AVR" -> IAvr!AddrMaxOf(cpu) [] OTHER -> 65535
+  CASE n = "4004" -> I4!AddrMax [] n = "PIC16" -> IPic!AddrMaxOf(cpu) [] n = "AVR" -> IAvr!AddrMaxOf(cpu) [] OTHER -> 65535
 
 VARIABLES l, judged
 vars == <<l, judged>>
